@@ -6,7 +6,13 @@
 D="$(cd "$1" && pwd)"; P="$2"; SECS="${3:-15}"; shift 3 2>/dev/null
 EXTRA="$*"
 wt=/tmp/wt-seed-$$; rm -rf $wt; git -C /repo worktree prune
-git -C /repo worktree add -q --detach $wt HEAD || exit 2
+# a seed is evaluated on the current HEAD when its patch still applies there, otherwise on the commit it was written against
+BASE=HEAD
+if ! git -C /repo apply --check "$D/patch.diff" 2>/dev/null; then
+  BASE=$(python3 -c "import json,sys; print(json.load(open('$D/meta.json')).get('base_commit','HEAD'))" 2>/dev/null || echo HEAD)
+  echo "(patch does not apply to HEAD any more: evaluated on its base commit $BASE)"
+fi
+git -C /repo worktree add -q --detach $wt $BASE || exit 2
 demo_build() { # worktree
   /tmp/seedkit/build_and_test.sh "$1" > "$1/_bt.log" 2>&1; tail -1 "$1/_bt.log"
   # a seed may need extra link flags for its demonstration (e.g. allocator wrapping): seed dir file "demo.ldflags"
